@@ -64,7 +64,7 @@ def get_z2_taper_function(unitary, kernel, q_indices, n_qubits, n_symmetries, ei
 
         # Remove non-commuting terms.
         commutes = do_commute(operator, kernel, term_resolved=True)
-        indices = np.where(commutes is False)[0]
+        indices = np.where(np.logical_not(commutes))[0]
 
         if len(indices) > 0:
             operator.remove_terms(indices)
@@ -178,6 +178,6 @@ def get_eigenvalues(symmetries, n_qubits, n_electrons, spin, mapping, up_then_do
         symmetries = np.reshape(symmetries, (-1, len(symmetries)))
 
     each_qubit = np.einsum("ij,j->ij", symmetries[:, n_qubits:].astype(bool), psi_init)
-    eigenvalues = np.product(-2 * each_qubit + 1, axis=1)
+    eigenvalues = np.prod(-2 * each_qubit + 1, axis=1)
 
     return eigenvalues
